@@ -69,6 +69,20 @@ func requestOfChain(n *simnet.Net, cli *simnet.Host, d *simnet.Datagram) uint64 
 	return 0
 }
 
+// cookieUsableFor tells for how long a cookie can still be opened by the server: until the
+// key that sealed it is retired.
+func cookieUsableFor(prov *ntske.Provider, ck []byte) (time.Duration, bool) {
+	var ec ntske.EncryptedServerCookie
+	if err := ec.Decode(ck); err != nil {
+		return 0, false
+	}
+	key, ok := prov.Get(int(ec.ID))
+	if !ok {
+		return 0, false
+	}
+	return key.Validity.NotAfter.Sub(time.Now()), true
+}
+
 func openCookieWith(prov *ntske.Provider, ck []byte) (ntske.ServerCookie, int, error) {
 	var ec ntske.EncryptedServerCookie
 	if err := ec.Decode(ck); err != nil {
@@ -137,23 +151,13 @@ func newNTSSCIONWorld(r *simcore.Run, nlisten int) *ntsSCIONWorld {
 	cert, pool := mkCert([]string{keHost}, []string{scSrvIP})
 	w.prov = ntske.NewProvider()
 	w.startServers(nlisten, false, 0, w.prov, false)
-	lst, err := w.net.ListenStream(hp(scSrvIP, kePort), nil)
+	kecfg := &tls.Config{Certificates: []tls.Certificate{cert}, MinVersion: tls.VersionTLS13, NextProtos: []string{keALPN}}
+	lst, err := w.net.ListenStream(hp(scSrvIP, kePort), kecfg)
 	if err != nil {
 		panic(err)
 	}
 	w.goSafe("ke-accept", func() {
-		for {
-			raw, err := lst.AcceptRaw()
-			if err != nil {
-				return
-			}
-			k := w.nextK
-			w.nextK++
-			w.goSafe(fmt.Sprintf("ke%d", k), func() {
-				cfg := &tls.Config{Certificates: []tls.Certificate{cert}, MinVersion: tls.VersionTLS13, NextProtos: []string{keALPN}}
-				server.VerifHandleKeyExchangeTLS(context.Background(), quietLog(), tls.Server(raw, cfg), scSvcPort, w.prov)
-			})
-		}
+		server.VerifRunNTSKEServerTLS(context.Background(), quietLog(), countingListener{lst, &w.nextK}, scSvcPort, w.prov)
 	})
 	w.filter = &recFilter{}
 	w.cl = &client.SCIONClient{Log: quietLog(), Filter: w.filter}
